@@ -293,6 +293,17 @@ type ParkHandler struct {
 	Records atomic.Int64
 	Rec     *Recorder // optional: log every message as "Log <msg>" (off by default)
 	LogAll  bool
+	notes   []note // records whose appearance is itself an event of the log (evidence of a program point)
+}
+
+type note struct{ substr, event string }
+
+// Notify makes every record whose message contains substr append event to Rec (before any park on the
+// same record is taken): the record is evidence that the logging goroutine has reached that program point.
+func (h *ParkHandler) Notify(substr, event string) {
+	h.mu.Lock()
+	h.notes = append(h.notes, note{substr, event})
+	h.mu.Unlock()
 }
 
 type Park struct {
@@ -338,6 +349,11 @@ func (h *ParkHandler) Handle(_ context.Context, rec slog.Record) error {
 	}
 	var hit *Park
 	h.mu.Lock()
+	for _, n := range h.notes {
+		if h.Rec != nil && strings.Contains(rec.Message, n.substr) {
+			h.Rec.Emit("%s", n.event)
+		}
+	}
 	for _, p := range h.parks {
 		if !p.used && strings.Contains(rec.Message, p.substr) {
 			p.used = true
